@@ -266,6 +266,29 @@ def r2_rm(ctx, F):
             ok = ok and "Ok(Not(some(RealInode::lookup_child(some(Iter::next(loop(iter))), ctx, name)?).whiteout))" in rt and "=> Ok(0)" in rt
             it = [c for c in live_calls(hb) if c.name == "iter"]
             ok = ok and len(it) == 1 and "self.real_inodes" in R(hv.call_args(it[0])[0], hb, hv)
+        # no answer for a lower layer before that layer was asked: inside the loop every way out of an iteration
+        # (return, or back to the loop head) passes the lookup, except the `continue` for the upper inode
+        early = None
+        if len(lk) == 1:
+            nx = [c for c in live_calls(hb) if c.name == "next"]
+            head = nx[0].bb if len(nx) == 1 else None
+            if head is None:
+                early = "loop head not found"
+            else:
+                rs = hb.reach_set(lk[0].bb, avoid=(head,))     # blocks of an iteration after the lookup
+                some = [s for s in hb.succs(hb.succs(head)[0]) if hb.can_reach(s, lk[0].bb, avoid=(head,))]
+                for s0 in some:
+                    pre = hb.reach_set(s0, avoid=(lk[0].bb, head))
+                    for u in sorted(pre):
+                        if hb.term(u)[0] == "ret":
+                            early = "bb%d returns before lookup_child was called for this layer" % u
+                        if head in hb.succs(u):
+                            gg = [(R(x, hb, hv), l) for (x, l, w) in hv.guards(u)]
+                            if ("some(Iter::next(loop(iter))).in_upper_layer", "otherwise") not in gg:
+                                early = "bb%d skips a layer that is not the upper one (guards %s)" % (u, [t[:50] for (t, l) in gg][-3:])
+                if not some:
+                    early = "iteration entry not found"
+        ctx.check(rule, "helper/asks-before-answering", early is None, "lower_layers_have_child: %s; each lower layer, opaque or not, provides its own entries and must be asked before the walk ends" % early, loc=hb.loc())
         ctx.check(rule, "helper/semantics", ok, "lower_layers_have_child must walk self.real_inodes top-down, skip upper inodes, and answer with the first lower layer that knows the name (true unless it is a whiteout), false if none does", loc=hb.loc())
 
 
@@ -515,7 +538,7 @@ META = {
                  "lookup (call-graph reachability + argument provenance), copy-up argument provenance and loop exit/step structure, writer/recogniser agreement of the on-disk markers",
     "text": "Decides: a directory replacing a whiteout is always made opaque and the upper whiteout is deleted first; do_rm's whiteout decision "
             "consults the parent's lower layers for the removed name and is cleared only for an opaque upper parent; whiteouts are emptied before "
-            "rmdir; copy-up creates with the original st_mode (parents with their own), copies until a transfer returns 0 with accumulating offsets, "
+            "rmdir; the helper asks every lower layer (opaque or not) before it answers or moves on; copy-up creates with the original st_mode (parents with their own), copies until a transfer returns 0 with accumulating offsets, "
             "symlinks by readlink->symlink; create_whiteout/set_opaque write what is_whiteout/is_opaque recognise; plus C10's sink and union rules.",
     "note": "Not decided: equality of the restarted view with the live view over all histories and crash points (run-time quantities); copy-up of "
             "timestamps/xattrs (the code itself marks these as not implemented).",
